@@ -8,7 +8,7 @@
     gov proposals / ICA packets, any position among sibling messages, any grants, any clock. *)
 From Coq Require Import List Bool ZArith.
 Import ListNotations.
-Require Import Nib.C17.AnteFacts Nib.C17.MsgTree Nib.C17.Model Nib.C17.Spec Nib.C17.Proofs.
+Require Import Nib.C17.AnteFacts Nib.C17.MsgTree Nib.C17.Model Nib.C17.Spec Nib.C17.Proofs Nib.C17.IcaList.
 Local Open Scope Z_scope.
 
 (** The cap over every reachable state: after ANY history of transactions and passed proposals from a
@@ -60,6 +60,13 @@ Print Assumptions C17_cfg_checker_sound.
 Theorem C17_checker_sound : forall t, Pb t = true -> P t.
 Proof. exact Pb_sound. Qed.
 Print Assumptions C17_checker_sound.
+
+(** An ICA-host allow-list (message type names as written in an upgrade handler) that names only message
+    types which can neither carry messages nor set a commission satisfies [ica_safe]. *)
+Theorem C17_ica_allow_list_safe :
+  forall (w : world) (l : list String.string), list_safe l = true -> ica_safe (world_with_ica w l).
+Proof. exact list_safe_sound. Qed.
+Print Assumptions C17_ica_allow_list_safe.
 
 (** ---- what the statement needs: each weakening is refuted by a concrete history ---- *)
 
